@@ -156,3 +156,14 @@ Example C31_stat_reader_contract :
   get_stat_ev [RByteEOF 0] stat0 false 0 = stat0 /\
   s_nonprint (get_stat_ev [RByteEOF SUB] stat0 false 0) = 2 ^ 64 - 1.
 Proof. vm_compute. split; reflexivity. Qed.
+
+(* ---- Stat.IsBinary is regenerated from utils/convert/stat.go on every run (Gen/C31.v):
+   the model's is_binary is exactly that function *)
+From Coq Require Import ZArith.
+From GoGit Require Import Gen.C31 Proofs.C31Leaf.
+Theorem C31_is_binary_tied : forall s,
+  convert_Stat_IsBinary (Z.of_N (s_nul s)) (Z.of_N (s_lonecr s))
+                        (Z.of_N (s_print s)) (Z.of_N (s_nonprint s))
+  = is_binary s.
+Proof. exact is_binary_gen_spec. Qed.
+Print Assumptions C31_is_binary_tied.
